@@ -55,7 +55,7 @@ CODES = (
     "y = {v}; y * 2",
     "raise RuntimeError('r{v}')",
 )
-CORRUPT = ("trunc", "trunc", "trunc_all", "trunc_all", "xonsh_ver", "py_ver", "garbage_header", "long_header", "empty", "directory", "unreadable", "dir_unwritable", "header_only")
+CORRUPT = ("trunc", "trunc", "trunc_all", "trunc_all", "xonsh_ver", "py_ver", "garbage_header", "long_header", "empty", "directory", "unreadable", "dir_unwritable", "header_only", "bitflip", "bitflip", "garbage_tail")
 SWITCHES = ("XONSH_CACHE_SCRIPTS", "XONSH_CACHE_EVERYTHING", "scriptcache", "cacheall")
 
 
@@ -102,7 +102,7 @@ class C19(Engine):
         "case = settings (4 cache switches, mtime granularity fine/1s/2s, initial bindings of the names the code's parse depends on) x history of 4-30 steps from edit(body, version) / touch / "
         "restore an older copy (older mtime) / clock step (0, ms, s, h, backwards) / run .xsh script / run .py script / run code string (8 templates incl. near-duplicates, modes exec and single) / switch "
         "flips / rebind / entry damage (truncate at one length; truncate at EVERY byte length for .py entries and all header lengths + sampled body lengths for .xsh entries; foreign xonsh version; "
-        "foreign Python version; garbage header; 2000-byte header; empty; header only; directory in place; unreadable; cache directory unwritable) / FaultFS failing call at a cache read-open / "
+        "foreign Python version; garbage header; 2000-byte header; empty; header only; bit flips and garbage tails that marshal refuses; directory in place; unreadable; cache directory unwritable) / FaultFS failing call at a cache read-open / "
         "write-open / write site of the next run (5 errnos, short write) / writer crash at a site with torn write (forked grandchild). every run is compared with the same source run uncached. "
         "non-trivial = a run that found an entry on disk; distinct = distinct (settings, step kinds, damage kinds) histories"
     )
@@ -111,14 +111,14 @@ class C19(Engine):
         "the statement promises the new source once its modification time is NEWER than the entry's: runs where the content changed but the source mtime is not newer (same tick, backward clock step, an older copy restored) are counted (probe stale_precondition_unmet) and not judged",
         "observation = printed output, subprocess launches requested by the compiled code (recorded by stubs, nothing is spawned), exception type/message returned or raised, and the resulting namespace (reprs of non-dunder, non-function names); stderr warnings are not compared",
         "a crash of the in-place cache writer leaves what the write(2) calls issued before the crash put on disk (torn at 0 / 1 / half / len-1 bytes of the call in flight); out-of-order persistence of blocks is not modelled",
-        "damage that still unmarshals into a code object (bit flips in the body) is not generated: the file format carries no checksum, such an entry is 'readable'",
+        "body damage (single bit flips in the first 72 body bytes, garbage tails) is used only when the stock marshal refuses to load it (decided in a forked child): such an entry is unreadable; damage that still unmarshals into a code object is not generated - the file format carries no checksum, such an entry is 'readable' - nor damage that crashes the interpreter",
         "whether an entry is rebuilt is only judged when caching is on and the cache location is writable",
     ]
     components = {
         "real": ["codecache.run_script_with_cache / run_code_with_cache / script_cache_check / code_cache_check / _check_cache_versions / update_cache / get_cache_filename / code_cache_name / compile_code / should_use_cache / run_compiled_code", "execer.Execer (real parser and compiler)", "tools.is_writable_file", "real files, marshal, kernel permission checks (uid 65534)"],
         "stub": ["clock: mtimes written with os.utime from the simulated clock", "FaultFS proxies for open/os in xonsh.codecache (failing calls, short writes, crash points)", "subprocess entry points of the session replaced by recorders"],
     }
-    expected_probes = ["valid_hit", "first_run_no_entry", "newer_source_recompiled", "stale_precondition_unmet", "same_tick_edit", "clock_backwards", "older_copy_restored", "truncation_runs", "truncation_complete_enumerations", "foreign_version", "garbage_header", "directory_in_place", "unreadable_entry", "dir_unwritable", "failing_call_fired", "short_write_fired", "crash_fired", "rebuilt_after_damage", "switch_off_run", "code_near_duplicate", "code_mode_switch", "rebind_between_runs", "raising_script", "syntax_error_script"]
+    expected_probes = ["valid_hit", "first_run_no_entry", "newer_source_recompiled", "stale_precondition_unmet", "same_tick_edit", "clock_backwards", "older_copy_restored", "truncation_runs", "truncation_complete_enumerations", "foreign_version", "garbage_header", "directory_in_place", "unreadable_entry", "dir_unwritable", "failing_call_fired", "short_write_fired", "crash_fired", "rebuilt_after_damage", "switch_off_run", "code_near_duplicate", "code_mode_switch", "rebind_between_runs", "raising_script", "syntax_error_script", "body_damage_refused_by_marshal"]
 
     def warmup(self):
         procworld.warm(extra_traced=())
@@ -223,6 +223,23 @@ class C19(Engine):
                 return isinstance(marshal.load(f), types.CodeType)
         except Exception:  # noqa: BLE001
             return False
+
+    @staticmethod
+    def _marshal_verdict(body):
+        """What does the stock marshal do with these bytes?  Decided in a forked child (damaged marshal data may crash CPython)."""
+        pid = os.fork()
+        if pid == 0:
+            code = 0
+            try:
+                obj = marshal.loads(body)
+                code = 0 if isinstance(obj, types.CodeType) else 4
+            except BaseException:  # noqa: B902
+                code = 3
+            os._exit(code)
+        _, status = os.waitpid(pid, 0)
+        if os.WIFEXITED(status):
+            return {0: "loads", 3: "raises", 4: "loads_other"}.get(os.WEXITSTATUS(status), "crash")
+        return "crash"
 
     def _base_ns(self):
         ns = {"__name__": "__main__"}
@@ -492,6 +509,25 @@ class C19(Engine):
             put(b"A" * 2000 + data, "long_header")
             p["garbage_header"] += 1
             self._run(kind, op["i"], op["v"], "exec", label="2000-byte header")
+        elif what in ("bitflip", "garbage_tail"):
+            # local damage of the body that marshal REFUSES to load (whatever it raises): an unreadable entry.
+            # Flips that still load (or crash the interpreter) are not used - see assumptions.
+            body = data[nl2 + 1 :]
+            span = min(len(body), 72)
+            for j in range(16):
+                u = (op["frac"] * 7919 + j * 0.6180339887) % 1.0
+                pos = int(u * span)
+                if what == "bitflip":
+                    bit = 7 if j % 2 == 0 else int(u * 977) % 8
+                    bad = body[:pos] + bytes([body[pos] ^ (1 << bit)]) + body[pos + 1 :]
+                else:
+                    bad = body[: max(1, pos)] + bytes((int(u * 251) + i * 37) % 256 for i in range(len(body) - max(1, pos)))
+                if self._marshal_verdict(bad) != "raises":
+                    continue
+                put(data[: nl2 + 1] + bad, what + "_refused")
+                p["body_damage_refused_by_marshal"] += 1
+                self._run(kind, op["i"], op["v"], "exec", label=f"{what} at body byte {pos} (marshal refuses the entry)")
+                break
         elif what == "empty":
             put(b"", "empty")
             self._run(kind, op["i"], op["v"], "exec", label="empty entry")
